@@ -6,6 +6,7 @@ use vstd::arithmetic::power2::*;
 verus! {
 //@ include prelude/bigint.rs
 //@ include spec/paths.rs
+broadcast use {num_bigint::of_int_bi, num_bigint::bi_of_int};
 
 //@ extract fn bi_zero from src/classic/clvm/__type_compatibility__.rs
 //@ sig r
